@@ -579,6 +579,7 @@ def engine_submitmt(tier, seed):
             dict(threads=2, adds=2, sqn=1, sq_init=0xFFFFFFFF, mode='sqpoll', pre=2),
             dict(threads=2, adds=2, sqn=2, sq_init=0xFFFFFFFE, mode='sqpoll', pre=1),
             dict(threads=2, adds=2, sqn=1, sq_init=0, mode='enter', pre=1),
+            dict(threads=2, adds=1, sqn=2, sq_init=0xFFFFFFFF, mode='enter', pre=2, single=1),
             dict(threads=3, adds=2, sqn=2, sq_init=0x7FFFFFFF, mode='sqpoll', pre=0, random=2000)]
     if tier == 'thorough':
         runs += [dict(threads=2, adds=3, sqn=2, sq_init=0xFFFFFFFD, mode='sqpoll', pre=2),
@@ -588,7 +589,7 @@ def engine_submitmt(tier, seed):
     for i, rn in enumerate(runs):
         outdir = os.path.join(BUILD, 'replay', 'submitmt_%d' % i)
         args = ['--threads', str(rn['threads']), '--adds', str(rn['adds']), '--sqn', str(rn['sqn']),
-                '--sq-init', str(rn['sq_init']), '--mode', rn['mode'], '--preemptions', str(rn['pre']),
+                '--sq-init', str(rn['sq_init']), '--mode', rn['mode'], '--single', str(rn.get('single', 0)), '--preemptions', str(rn['pre']),
                 '--max-exec', str(rn.get('maxexec', 60000 if tier == 'quick' else 1000000)), '--random', str(rn.get('random', 0)),
                 '--seed', str(seed + 1)]
         trace_path = os.path.join(outdir, 'traces.jsonl')
